@@ -357,6 +357,10 @@ impl Prop for C19 {
             })
             .boxed()
     }
+    /// every case is one run of the program: not a target for in-process coverage-guided fuzzing
+    fn extra(_tier: Tier, _seed: u64, _ev: &mut std::collections::BTreeMap<String, Value>) -> Result<(), (Failure, Value)> {
+        Ok(())
+    }
     fn describe(c: &Case) -> Value {
         serde_json::json!({"argv": argv(c), "comp.csv": components_text(c), "fact.csv": c.ffile.map(|i| FFILES[i % 2]), "model": format!("{:?}", model(c))})
     }
